@@ -129,7 +129,11 @@ def run_project(case: dict) -> dict:
         del _EVENTS[:]
         _AUDIT_ON["root"] = str(root) + os.sep
         try:
-            r = core.run_reuse([*base, "convert-dep5"], cwd=case.get("cwd") and root / case["cwd"])
+            if case.get("locale_c"):
+                # the conversion in a fresh interpreter whose locale is not UTF-8 (the files it writes are UTF-8 all the same)
+                r = core.run_reuse_subprocess([*base, "convert-dep5"], env={"LC_ALL": "C", "LANG": "C", "PYTHONUTF8": "0", "PYTHONCOERCECLOCALE": "0"})
+            else:
+                r = core.run_reuse([*base, "convert-dep5"], cwd=case.get("cwd") and root / case["cwd"])
         finally:
             _AUDIT_ON["root"] = None
         ev["fsev"] = [e for e in _EVENTS if e["path"] in ("REUSE.toml", ".reuse/dep5")] or [{"op": "none", "path": "-"}]
@@ -217,6 +221,12 @@ def run(ctx: core.Ctx) -> int:
         pcases.append({"tid": len(pcases) + 1, "paragraphs": pgs, "has_dep5": True, "fault": "none", "seed": ctx.seed + j,
                        "cwd": "src" if j % 4 == 0 else None,
                        "label": json.dumps({"paragraphs": [[pg["patterns"], pg["lic"]] for pg in pgs]})})
+    # holders with non-ASCII letters, converted in an interpreter whose locale is not UTF-8
+    for j in range(6 if q else 60):
+        pgs = [{"patterns": rnd.sample(CLEAN_POOL, 1), "cop": ["2020 Jos\u00e9 M\u00fcller", "2021 \u5c71\u7530 \u592a\u90ce"][: 1 + j % 2],
+                "lic": rnd.choice(["MIT", "0BSD"]), "comment": "caf\u00e9" if j % 3 == 0 else None}]
+        pcases.append({"tid": len(pcases) + 1, "paragraphs": pgs, "has_dep5": True, "fault": "none", "seed": ctx.seed + 7000 + j, "locale_c": True,
+                       "label": json.dumps({"locale": "C", "paragraphs": [[pg["patterns"], pg["lic"]] for pg in pgs]})})
     pcases.append({"tid": len(pcases) + 1, "paragraphs": [], "has_dep5": False, "fault": "none", "seed": 1, "label": '"no dep5"'})
     for fault in ("toml-is-dir",):
         for j in range(3):
